@@ -413,6 +413,7 @@ def blocks_vs_stored(repo, tail, flt, case, rep, whole_lines=False):
                              "stored_bytes": len(want), "streamed_bytes": len(g), "streamed_is_prefix": want.startswith(g),
                              "got_tail": g[-120:].decode("utf-8", "replace"), "want_tail": want[-120:].decode("utf-8", "replace")})
             return False
+    tail.last_per, tail.last_stored = per, stored
     return True
 
 
@@ -440,6 +441,25 @@ def c20_cancel_case(seed, model, rep):
             return
         if blocks_vs_stored(repo, tail, flt, case, rep):
             rep.nontrivial_case({"seed": seed, "mode": "cancel"})
+            # the task machine (two readers of one task, cancelled in either order) on the lines each
+            # reader had consumed: what it streams is what the listener received for that key
+            for t in ("app", "app2"):
+                so = tail.last_stored.get(("stdout", t, "build"), b"")
+                se = tail.last_stored.get(("stderr", t, "build"), b"")
+                if not ((so == b"" or so.endswith(b"\n")) and (se == b"" or se.endswith(b"\n"))):
+                    continue
+                evs = [["out", "chunk", l.hex()] for l in so.splitlines(True)] + [["err", "chunk", l.hex()] for l in se.splitlines(True)]
+                if rng.chance(1, 2):
+                    evs.insert(rng.below(len(evs) + 1), [rng.pick(["out", "err"]), "tick"])
+                evs += [["out", "cancel"], ["err", "cancel"]] if rng.chance(1, 2) else [["err", "cancel"], ["out", "cancel"]]
+                m = model.ask({"op": "task", "events": evs, "client_out": True, "client_err": True})
+                got_o = tail.last_per.get(("stdout", t, "build"), b"").hex()
+                got_e = tail.last_per.get(("stderr", t, "build"), b"").hex()
+                rep.count("task_machine_comparisons")
+                if m["o"]["streamed"] != got_o or m["e"]["streamed"] != got_e or m["o"]["stored"] != so.hex() or m["e"]["stored"] != se.hex():
+                    rep.disagree({"kind": "the task machine streams something else than the listener received", "case": case, "target": t,
+                                  "model_out_bytes": len(m["o"]["streamed"]) // 2, "listener_out_bytes": len(got_o) // 2,
+                                  "model_err_bytes": len(m["e"]["streamed"]) // 2, "listener_err_bytes": len(got_e) // 2})
     finally:
         repo.done()
 
